@@ -140,6 +140,52 @@ fn execute(seq: &[usize], ctx: &WorkerCtx) -> ExecResult {
     })
 }
 
+/// The peer's first distribution frames travel in the same TCP segment as the handshake
+/// acknowledgement (and a third one is split across segments): nothing may be lost when the node
+/// takes over the read half.
+fn coalesced_exec(nframes: usize, ctx: &WorkerCtx) -> ExecResult {
+    run_rt(async move {
+        let mut res = ExecResult::default();
+        let w = crate::world::World::new(ctx.heartbeat.clone(), &ctx.listeners).await;
+        w.gates.set_active(&[]);
+        let mut node = edp_node::Node::new("me@127.0.0.1", crate::world::COOKIE);
+        if let Err(e) = node.start(0).await { res.violations.push(("node could not start".into(), json!({"error": e.to_string()}))); return res; }
+        let node = Arc::new(node);
+        let log: Log = Arc::new(Mutex::new(vec![]));
+        let p1 = node.spawn(Rec { name: "p1".into(), log: log.clone() }).await.unwrap();
+        let d1 = den_pid(&p1);
+        let mut stream: Vec<u8> = vec![];
+        let mut expect: Vec<String> = vec![];
+        for i in 0..nframes + 1 {
+            let m = RefVal::Tuple(vec![RefVal::atom("early"), RefVal::int(i as i64)]);
+            stream.extend_from_slice(&send_to(&d1, m.clone()));
+            expect.push(format!("msg:{}", m));
+        }
+        // the last frame is cut in the middle: its first half rides with the ack, the rest follows later
+        let last_len = send_to(&d1, RefVal::Tuple(vec![RefVal::atom("early"), RefVal::int(nframes as i64)])).len();
+        let cut = stream.len() - last_len / 2;
+        let n2 = node.clone();
+        let h = tokio::spawn(async move { n2.connect(PEER_NAME).await });
+        let Some(mut peer) = w.accept_peer().await else { res.violations.push(("library never connected".into(), json!({}))); return res; };
+        if let Err(e) = w.peer_handshake_with(&mut peer, flags_default(), &stream[..cut]).await { res.violations.push(("handshake failed".into(), json!({"error": e}))); return res; }
+        let mut h = h;
+        for _ in 0..50_000 { w.yield_once().await; if h.is_finished() { break; } }
+        match (&mut h).await { Ok(Ok(())) => {}, other => { res.violations.push(("connect failed under a conforming peer".into(), json!({"result": format!("{:?}", other.map(|r| r.map_err(|e| e.to_string())))}))); return res; } }
+        tokio::time::pause();
+        let probe = { let l = log.clone(); move || l.lock().unwrap().len() as u64 };
+        w.settle(&mut peer, &probe).await;
+        peer.send(&stream[cut..]);
+        w.settle(&mut peer, &probe).await;
+        let got: Vec<String> = log.lock().unwrap().iter().map(|x| x.1.clone()).collect();
+        if got != expect {
+            res.violations.push(("frames that arrived together with the handshake acknowledgement were lost or reordered".into(), json!({"sent": expect, "delivered": got})));
+        }
+        res.steps = nframes as u64 + 1;
+        res.outcome = format!("coalesced {} delivered {}", nframes, got.len());
+        res
+    })
+}
+
 /// A live process that is more than a mailbox (1000 entries) behind: nothing may be dropped.
 fn backlog_exec(n: usize, ctx: &WorkerCtx) -> ExecResult {
     run_rt(async move {
@@ -212,12 +258,14 @@ pub fn run(rep: &Report) -> Value {
         }
         r
     });
+    let coalesced: Vec<usize> = vec![0, 1, 2, 5];
+    let st_c: Stats = for_all(rep, "first frames in the same segment as the handshake acknowledgement", &coalesced, |n, ctx| coalesced_exec(*n, ctx));
     let backlogs: Vec<usize> = vec![999, 1000, 1001, 1002, 1500];
     let st_b: Stats = for_all(rep, "recipient more than a mailbox behind", &backlogs, |n, ctx| backlog_exec(*n, ctx));
     json!({
-        "states": st.executions + st_b.executions,
+        "states": st.executions + st_b.executions + st_c.executions,
         "transitions": st.transitions + st_b.transitions,
-        "traces_validated_against_impl": st.executions + st_b.executions,
+        "traces_validated_against_impl": st.executions + st_b.executions + st_c.executions,
         "backlog_scenarios": backlogs,
         "samples": [ {"events": cases[cases.len() / 2].iter().map(|&e| EVENTS[e]).collect::<Vec<_>>()}, {"events": cases[cases.len() - 7].iter().map(|&e| EVENTS[e]).collect::<Vec<_>>()}, {"alphabet": EVENTS} ],
         "exhaustive": true,
@@ -225,6 +273,6 @@ pub fn run(rep: &Report) -> Value {
         "distinct_outcomes": st.distinct_outcomes,
         "outcomes": st.outcomes,
         "unstable_failures_not_reported": st.unstable,
-        "rule": format!("every sequence of <= {} events over a 21-event alphabet (sends to live/dead/never-existing pids, registered/unknown/late-registered names, exit, monitor exit, rpc reply, unknown control kind, control tuple the parser rejects, tick, undecodable body, wrong marker, over-long length, premature close, close, 5/9/15 s of silence, a local registration) against a real started Node with three instrumented processes and one outstanding remote call, followed by a final valid message; plus five backlog executions in which a process held at a gate is sent 999..1500 messages, an exit signal and traffic for another process (mailbox capacity is 1000); states = complete executions", max_len),
+        "rule": format!("every sequence of <= {} events over a 21-event alphabet (sends to live/dead/never-existing pids, registered/unknown/late-registered names, exit, monitor exit, rpc reply, unknown control kind, control tuple the parser rejects, tick, undecodable body, wrong marker, over-long length, premature close, close, 5/9/15 s of silence, a local registration) against a real started Node with three instrumented processes and one outstanding remote call, followed by a final valid message; plus five backlog executions in which a process held at a gate is sent 999..1500 messages, an exit signal and traffic for another process (mailbox capacity is 1000); four executions in which the peer's first 0..5 frames (and half of one more) share a TCP segment with the handshake acknowledgement; states = complete executions", max_len),
     })
 }
